@@ -54,6 +54,7 @@ class Exec:
         self.scan_cls, self.filter_cls, self.config_cls, self.field = scan_cls, filter_cls, config_cls, field
         self.params = list(view.param_names)
         self.sinks: list[Sink] = []
+        self.raises: list[Formula] = []  # path conditions of the `raise` statements of the (inlined) entry point
         self.maps: list[tuple] = []  # (term, node)
         self.ctors: list[str] = []
         self._rets: list[list] = []  # return alternatives of the helper being evaluated
@@ -432,6 +433,7 @@ class Exec:
                             merged[name] = [(f_and([c, g]), t) for g, t in a1] + [(f_and([f_not(c), g]), t) for g, t in a2]
                     env = merged
             elif isinstance(s, (ast.Raise,)):
+                self.raises.append(f_and([*self._outer, pc]))
                 return env, pc, True
             elif isinstance(s, ast.Return):
                 if s.value is not None:
@@ -591,7 +593,7 @@ def run(repo: Repo, res: Result, rule: str, scan_cls: ClassInfo | None, filter_c
                 else:
                     regex_ok, regex_detail = False, f"with only `{REGEX}` given the scan receives {show_term(t)} instead of the user's regular expressions"
             # regex patterns given *together with* globs and the call is not rejected: they must not be dropped silently
-            if sat(f_and([full, G, R])) and t[0] != "other" and not _mentions(t, ("param", REGEX)):
+            if sat(f_and([full, G, R])) and t[0] != "other" and not _mentions(t, ("param", REGEX)) and not imp(f_and([G, R]), f_or(ex.raises)):
                 from core.guards import atoms_of as _atoms, show as _show
 
                 hidden = sorted(a for a in _atoms(full) if not _plain_condition(a, pnames))
